@@ -7,7 +7,42 @@ from .mm import enc_name
 BAD = "!"
 
 
-def gen_case(seed, idx):
+def exh_alphabet(k):
+    full = k <= 2
+    A = []
+    for w in ((0, 1, 8, 9, 17, 33) if full else (1, 9, 17)):
+        for off in ((None, 0, 1, 2, 3, 6, 7, 8) if full else (None, 0, 2, 7)):
+            for nm in ("a", "b"):
+                A.append(("add", nm, w, off))
+    A += [("cluster", "c"), ("index", 0), ("exit",), ("freeze",)]
+    return A
+
+
+def exh_count(k):
+    return 2 * len(exh_alphabet(k)) ** k
+
+
+def gen_exh(idx, k):
+    """bounded-exhaustive builder programs: every sequence of k operations over `exh_alphabet(k)`,
+    then as_memory_map(); geometry 8/8 or 16/8 (top digit) on an 8-word address space"""
+    A = exh_alphabet(k)
+    ops, x, nreg = [], idx, 0
+    for _ in range(k):
+        a = A[x % len(A)]
+        x //= len(A)
+        if a[0] == "add":
+            ops.append(("add", nreg, a[1], a[2], a[3]))
+            nreg += 1
+        else:
+            ops.append(a)
+    ops.append(("asmap",))
+    dw = 8 if x % 2 == 0 else 16
+    return {"aw": 3, "dw": dw, "gran": 8, "ops": ops, "nreg": nreg, "seed": 0, "idx": idx}
+
+
+def gen_case(seed, idx, exh_k=None):
+    if exh_k is not None:
+        return gen_exh(idx, exh_k)
     rnd = lib.rng_for(seed, idx, 1717)
     dw = rnd.choice([8, 8, 16, 32])
     gran = rnd.choice([g for g in (1, 2, 4, 8, 16, 32) if dw % g == 0])
